@@ -72,6 +72,7 @@ func codecCore(ops *typeOps) {
 	vrt.SetOwner("impl")
 	k2, err2 := EncodeObject(buf2, nil, ops.Deref(pv))
 	vrt.Check(err2 == nil && k2 == n, "C04 EncodeObject(value) succeeds")
+	vrt.Observe("enc2", buf2)
 	vrt.Check(vrt.BytesEq(buf2, ref), "C16 re-encoding (by value) yields the same bytes")
 
 	// ---- short buffers (C04): lengths 0, n/2, n-1; with cap==len and with spare capacity ----
